@@ -17,6 +17,7 @@ import (
 	"sort"
 	"strings"
 
+	"github.com/bufbuild/buf/private/bufpkg/bufcas"
 	"github.com/bufbuild/buf/private/bufpkg/bufprotoplugin"
 	"github.com/bufbuild/buf/private/pkg/slogext"
 	"github.com/bufbuild/buf/private/pkg/storage"
@@ -1260,6 +1261,135 @@ func (m *sim) stepArchiveOptions(v view) {
 	m.s.Probe("archive-with-options")
 }
 
+// stepForeignArchive extracts an archive written by another tool: directory entries, "./"
+// prefixes, an entry that appears twice (the later one wins), empty and large files.
+func (m *sim) stepForeignArchive() {
+	type entry struct {
+		name string
+		data string
+		dir  bool
+	}
+	big := strings.Repeat("0123456789abcdef", 2500+m.tp.Draw("fabig", 3000))
+	entries := []entry{
+		{name: "pkg/", dir: true},
+		{name: "./pkg/a.txt", data: "first"},
+		{name: "pkg/sub/", dir: true},
+		{name: "pkg/sub/empty.txt", data: ""},
+		{name: "pkg/sub/big.bin", data: big},
+		{name: "pkg/a.txt", data: "second"},
+		{name: "top.txt", data: "top"},
+		{name: "pkg/./sub/../b.txt", data: "b"},
+	}
+	// tape-chosen order of the non-directory entries that do not shadow each other
+	useZip := m.tp.Draw("fazip", 2) == 1
+	strip := m.tp.Draw("fastrip", 2)
+	var buf bytes.Buffer
+	if useZip {
+		zw := zip.NewWriter(&buf)
+		for _, e := range entries {
+			name := e.name
+			if e.dir {
+				if _, err := zw.CreateHeader(&zip.FileHeader{Name: name}); err != nil {
+					return
+				}
+				continue
+			}
+			w, err := zw.CreateHeader(&zip.FileHeader{Name: name, Method: zip.Deflate})
+			if err != nil {
+				return
+			}
+			_, _ = w.Write([]byte(e.data))
+		}
+		_ = zw.Close()
+	} else {
+		tw := tar.NewWriter(&buf)
+		for _, e := range entries {
+			h := &tar.Header{Typeflag: tar.TypeReg, Name: e.name, Size: int64(len(e.data)), Mode: 0o644}
+			if e.dir {
+				h = &tar.Header{Typeflag: tar.TypeDir, Name: e.name, Mode: 0o755}
+			}
+			if err := tw.WriteHeader(h); err != nil {
+				return
+			}
+			if !e.dir {
+				_, _ = tw.Write([]byte(e.data))
+			}
+		}
+		_ = tw.Close()
+	}
+	expect := map[string]string{}
+	for _, e := range entries {
+		if e.dir {
+			continue
+		}
+		norm, _ := resolve(e.name)
+		parts := strings.Split(norm, "/")
+		if len(parts) <= strip {
+			continue
+		}
+		expect[strings.Join(parts[strip:], "/")] = e.data
+	}
+	for _, kind := range []string{"mem", "os"} {
+		var out storage.ReadWriteBucket
+		if kind == "mem" {
+			out = storagemem.NewReadWriteBucket()
+		} else {
+			dir := filepath.Join(m.root, fmt.Sprintf("foreign%d", m.counters["steps"]))
+			_ = os.MkdirAll(dir, 0o755)
+			b, err := storageos.NewProvider().NewReadWriteBucket(dir)
+			if err != nil {
+				panic(err)
+			}
+			out = b
+			defer os.RemoveAll(dir)
+		}
+		var err error
+		if useZip {
+			err = storagearchive.Unzip(m.ctx, bytes.NewReader(buf.Bytes()), int64(buf.Len()), out, storagearchive.UnzipWithStripComponentCount(uint32(strip)))
+		} else {
+			err = storagearchive.Untar(m.ctx, bytes.NewReader(buf.Bytes()), out, storagearchive.UntarWithStripComponentCount(uint32(strip)))
+		}
+		if err != nil {
+			m.violate("archive-round-trip", "foreign-archive", "extracting a foreign archive (zip=%v strip=%d) into %s failed: %v", useZip, strip, kind, err)
+			continue
+		}
+		got, err := simfs.Snapshot(m.ctx, out)
+		if err != nil {
+			panic(err)
+		}
+		if d := diff(expect, got); d != "" {
+			m.violate("archive-round-trip", "foreign-archive", "foreign archive (zip=%v strip=%d) extracted into %s differs from its entries: %s", useZip, strip, kind, d)
+		}
+	}
+	m.s.Event("foreign-archive zip=%v strip=%d", useZip, strip)
+	m.s.Probe("foreign-archive")
+}
+
+// stepFileNodes: content-addressed file nodes and manifests must refuse paths that are not
+// normal relative paths (they become bucket paths when a file set is written out).
+func (m *sim) stepFileNodes() {
+	p := m.hostile()
+	norm, esc := resolve(p)
+	digest, err := bufcas.NewDigestForContent(strings.NewReader("x"))
+	if err != nil {
+		panic(err)
+	}
+	_, nerr := bufcas.NewFileNode(p, digest)
+	_, perr := bufcas.ParseFileNode(digest.String() + "  " + p)
+	bad := esc || norm != p || p == "" || norm == "."
+	m.s.Event("filenode %q -> new=%v parse=%v", p, nerr == nil, perr == nil)
+	if bad && (nerr == nil || perr == nil) {
+		if esc {
+			m.hostileSeen["filenode:"+p] = struct{}{}
+			m.violate("escape-rejected", "filenode", "a file node with the path %q (which escapes) was accepted (NewFileNode err=%v, ParseFileNode err=%v)", p, nerr, perr)
+		}
+	}
+	if !bad && (nerr != nil || perr != nil) {
+		m.violate("put-matches-model", "filenode", "a file node with the normal relative path %q was rejected: %v / %v", p, nerr, perr)
+	}
+	m.s.Probe("filenode-paths")
+}
+
 // stepHostileArchive feeds an archive with hostile entry names to Untar/Unzip.
 func (m *sim) stepHostileArchive(v view) {
 	for _, b := range v.roots() {
@@ -1592,6 +1722,14 @@ func Run(tp *tape.Tape, env *engine.Env) *engine.Outcome {
 			} else {
 				name = "plugin-response"
 				m.stepPluginResponse(v)
+			}
+		case op == 19 && tp.Draw("special19", 4) == 3:
+			if tp.Draw("which19", 2) == 0 {
+				name = "foreign-archive"
+				m.stepForeignArchive()
+			} else {
+				name = "filenode"
+				m.stepFileNodes()
 			}
 		case op == 19:
 			if tp.Draw("archopts", 3) == 2 {
